@@ -224,6 +224,13 @@ def _with_quantile_lines(fig, kind, info, s):
             if len(m) != info["F"]:
                 return None
             out += list(enumerate(m))
+    if kind == "igncontrib":
+        # the lower panel (number of cases per bin) draws one line per input with the same options as the upper panel
+        axs = main_axes(fig, kind)
+        low = list(axs[1].get_lines()) if len(axs) > 1 else []
+        if len(low) != info["F"]:
+            return None
+        out += list(enumerate(low))
     return out
 
 
@@ -271,7 +278,10 @@ def p_ma(fig, kind, info):
     if s is None:
         return "data lines not found"
     want = ["x", "s", "^"]
-    for i, l in enumerate(s):
+    s = _with_quantile_lines(fig, kind, info, s) if kind == "igncontrib" else list(enumerate(s))
+    if s is None:
+        return "lower-panel lines not found"
+    for i, l in s:
         if l.get_marker() != want[i % 3]:
             return "line %d marker %r, expected %s" % (i, l.get_marker(), want[i % 3])
 
@@ -281,7 +291,10 @@ def p_ms(fig, kind, info):
     if s is None:
         return "data lines not found"
     want = [4.0, 9.0, 6.0, 5.0]
-    for i, l in enumerate(s):
+    s = _with_quantile_lines(fig, kind, info, s) if kind == "igncontrib" else list(enumerate(s))
+    if s is None:
+        return "lower-panel lines not found"
+    for i, l in s:
         if abs(l.get_markersize() - want[i % 4]) > 1e-6:
             return "line %d marker size %r, expected %s" % (i, l.get_markersize(), want[i % 4])
 
@@ -517,11 +530,11 @@ OPTIONS = {
     "legfs": (["-legfs", "7"], ["std", "loc", "igncontrib"], p_legfs, "legfs"),
     "legfs0": (["-legfs", "0"], ["std", "loc", "igncontrib"], p_legfs0, "legfs"),
     "legloc": (["-legloc", "lower_left"], ["std", "loc", "igncontrib"], p_legloc, "legfs0x"),
-    "lc": (["-lc", "red,blue"], ["std", "std5", "loc", "tsens"], p_lc, None),
-    "ls": (["-ls", "--,:,-."], ["std", "std5", "tsens"], p_ls, None),
-    "lw": (["-lw", "3,1"], ["std", "std5", "tsens"], p_lw, None),
-    "ma": (["-ma", "x,s,^"], ["std", "std5", "loc"], p_ma, None),
-    "ms": (["-ms", "4,9,6,5"], ["std", "std5", "loc"], p_ms, None),
+    "lc": (["-lc", "red,blue"], ["std", "std5", "loc", "tsens", "igncontrib"], p_lc, None),
+    "ls": (["-ls", "--,:,-."], ["std", "std5", "tsens", "igncontrib"], p_ls, None),
+    "lw": (["-lw", "3,1"], ["std", "std5", "tsens", "igncontrib"], p_lw, None),
+    "ma": (["-ma", "x,s,^"], ["std", "std5", "loc", "igncontrib"], p_ma, None),
+    "ms": (["-ms", "4,9,6,5"], ["std", "std5", "loc", "igncontrib"], p_ms, None),
     "labfs": (["-labfs", "11"], ["std", "loc", "pithist", "igncontrib", "against"], p_labfs, None),
     "tickfs": (["-tickfs", "9"], ["std", "loc", "pithist", "igncontrib", "against"], p_tickfs, None),
     "titlefs": (["-title", "My_title_1", "-titlefs", "23"], ["std", "loc", "pithist"], p_titlefs, "title"),
